@@ -380,4 +380,134 @@ theorem discard_lease_inv {s : State} {L : List Nat} {c : Nat} (h : InvL s (c ::
       have e := enqueue_inv none h0 (Or.inr ⟨rfl, hs0⟩) hcl' hl
       simp only [hcl'] at e; exact e
 
+
+/-! ### `_get_conn`: a slot of the queue becomes a lease -/
+
+theorem lease_fresh {s : State} {q : List (Option Nat)} (h : Inv s) (hc : s.closed = false)
+    (hq : q.filterMap id = queued s) (hl1 : q.length ≤ s.queue.length) (hl2 : s.queue.length ≤ q.length + 1)
+    (hb : s.block = true → s.queue.length = q.length + 1) :
+    InvL { s with queue := q, conns := s.conns ++ [{}] } [s.conns.length] := by
+  have hnd := h.nodup
+  have hbd := h.bound
+  have ho0 : owned s [] = queued s ++ held s := by simp [owned]
+  rw [ho0] at hnd hbd
+  have ho : owned { s with queue := q, conns := s.conns ++ [{}] } [s.conns.length]
+      = queued s ++ (s.conns.length :: held s) := by
+    show List.filterMap id q ++ ([s.conns.length] ++ held s) = _
+    rw [hq]; rfl
+  have hmem : ∀ x, x ∈ queued s ++ (s.conns.length :: held s) ↔ (x = s.conns.length ∨ x ∈ queued s ++ held s) := by
+    intro x; simp only [List.mem_append, List.mem_cons]
+    constructor
+    · rintro (h1 | h1 | h1)
+      · exact Or.inr (Or.inl h1)
+      · exact Or.inl h1
+      · exact Or.inr (Or.inr h1)
+    · rintro (h1 | h1 | h1)
+      · exact Or.inr (Or.inl h1)
+      · exact Or.inl h1
+      · exact Or.inr (Or.inr h1)
+  have hheld : held { s with queue := q, conns := s.conns ++ [{}] } = held s := rfl
+  refine ⟨h.pos, ?_, ?_, ?_, ?_, ?_, ?_, ?_⟩
+  · rw [ho]
+    have : (queued s ++ (s.conns.length :: held s)).Perm (s.conns.length :: (queued s ++ held s)) := List.perm_middle
+    rw [this.nodup_iff, List.nodup_cons]
+    refine ⟨?_, hnd⟩
+    intro hm
+    have := hbd _ hm
+    omega
+  · intro c' cn hc' hs
+    rw [ho, hmem]
+    by_cases hlt : c' < s.conns.length
+    · have hc'' : s.conns[c']? = some cn := by
+        have : (s.conns ++ [({} : Conn)])[c']? = s.conns[c']? := List.getElem?_append_left hlt
+        rw [← this]; exact hc'
+      have := h.live c' cn hc'' hs
+      rw [ho0] at this
+      exact Or.inr this
+    · by_cases he : c' = s.conns.length
+      · exact Or.inl he
+      · have hge : (s.conns ++ [({} : Conn)]).length ≤ c' := by simp; omega
+        have : (s.conns ++ [({} : Conn)])[c']? = none := List.getElem?_eq_none hge
+        have hc2 : (s.conns ++ [({} : Conn)])[c']? = some cn := hc'
+        rw [this] at hc2; cases hc2
+  · intro x hx
+    rw [ho, hmem] at hx
+    show x < (s.conns ++ [({} : Conn)]).length
+    simp only [List.length_append, List.length_singleton]
+    rcases hx with rfl | h1
+    · omega
+    · have := hbd x h1; omega
+  · intro hcl; have : s.closed = true := hcl; rw [hc] at this; cases this
+  · show q.length ≤ s.maxsize
+    have := h.len; omega
+  · intro _
+    show s.maxsize ≤ q.length + ([s.conns.length].length + (held s).length)
+    have := h.slots hc; simp at this ⊢; omega
+  · intro _ hb'
+    show q.length + ([s.conns.length].length + (held s).length) = s.maxsize
+    have h1 := h.slotsB hc hb'; have h2 := hb hb'; simp at h1 ⊢; omega
+
+theorem lease_queued {s : State} {c0 : Nat} {rest : List (Option Nat)} (h : Inv s) (hq : s.queue = some c0 :: rest) :
+    InvL { s with queue := rest } [c0] := by
+  have hcl : s.closed = false := by
+    cases hx : s.closed with
+    | false => rfl
+    | true => have := h.closedq hx; rw [hq] at this; cases this
+  have hperm : (owned { s with queue := rest } [c0]).Perm (owned s []) := by
+    simp only [owned, queued, held, hq, List.filterMap_cons, id, List.nil_append, List.singleton_append]
+    exact List.perm_middle
+  have hmem : ∀ x, x ∈ owned { s with queue := rest } [c0] ↔ x ∈ owned s [] := fun x => hperm.mem_iff
+  refine ⟨h.pos, hperm.nodup_iff.mpr h.nodup, ?_, ?_, ?_, ?_, ?_, ?_⟩
+  · intro c' cn hc' hs; exact (hmem c').mpr (h.live c' cn hc' hs)
+  · intro x hx; exact h.bound x ((hmem x).mp hx)
+  · intro hx; simp at hx; rw [hcl] at hx; cases hx
+  · have := h.len; rw [hq] at this; simp at this ⊢; omega
+  · intro _; have := h.slots hcl; rw [hq] at this; simp [held] at this ⊢; omega
+  · intro _ hb; have := h.slotsB hcl hb; rw [hq] at this; simp [held] at this ⊢; omega
+
+/-- `_get_conn()` returning a connection turns `Inv` into the invariant with that connection leased;
+raising (`ClosedPoolError`, `EmptyPoolError`) leaves the state alone -/
+theorem getConn_inv {s s' : State} {c : Nat} (h : Inv s) (hg : getConn s = (s', .ok c)) : InvL s' [c] := by
+  unfold getConn at hg
+  by_cases hcl : s.closed = true
+  · simp [hcl] at hg
+  · have hcl' : s.closed = false := by cases hx : s.closed <;> simp_all
+    simp only [hcl', Bool.false_eq_true, if_false] at hg
+    cases hq : s.queue with
+    | nil =>
+      rw [hq] at hg
+      by_cases hb : s.block = true
+      · simp [hb] at hg
+      · have hb' : s.block = false := by cases hx : s.block <;> simp_all
+        simp [hb', newConn] at hg
+        obtain ⟨rfl, rfl⟩ := hg
+        have := lease_fresh (q := []) h hcl' (by simp [queued, hq]) (by simp) (by simp [hq]) (by simp [hb'])
+        simp only [hq, hb', hcl'] at this ⊢; exact this
+    | cons item rest =>
+      rw [hq] at hg
+      cases item with
+      | none =>
+        simp [newConn] at hg
+        obtain ⟨rfl, rfl⟩ := hg
+        have e := lease_fresh (q := rest) h hcl' (by simp [queued, hq]) (by simp [hq]) (by simp [hq]) (by intro _; simp [hq])
+        simp only [hcl'] at e ⊢; exact e
+      | some c0 =>
+        simp at hg
+        obtain ⟨rfl, rfl⟩ := hg
+        have h1 := lease_queued h hq
+        simp only [hcl'] at h1 ⊢
+        split
+        · exact connClose_inv _ h1
+        · exact h1
+
+theorem getConn_error_state {s s' : State} {e : Exc} (hg : getConn s = (s', .error e)) : s' = s := by
+  unfold getConn at hg
+  split at hg
+  · simp at hg; exact hg.1.symm
+  · split at hg
+    · split at hg
+      · simp at hg; exact hg.1.symm
+      · simp [newConn] at hg
+    · split at hg <;> simp [newConn] at hg
+
 end U3.Pool
